@@ -580,8 +580,9 @@ class TableReport(ReportBase):
         if isinstance(value, datetime):
             # Use report's timeFormat, falling back to project's timeformat
             timeformat = self.a("timeFormat")
-            # Check if it's the default - if so, try project's timeformat
-            if timeformat == "%Y-%m-%d":
+            # If the report did not choose a format itself, try project's timeformat
+            # (a report may explicitly ask for "%Y-%m-%d", which is also the default)
+            if not self.report.provided("timeFormat"):
                 project_timeformat = self.project.attributes.get("timeformat")
                 if project_timeformat:
                     timeformat = project_timeformat
